@@ -175,3 +175,28 @@ Example C17_former_witnesses :
   /\ max_pool2d [1; 1; 3; 3] [1; 2; 3; 4; 5; 6; 7; 8; 9] [1; 1] [3; 3] true = Some ([1; 1; 1; 1], [1])
   /\ avg_pool2d [1; 1; 3; 3] [1; 2; 3; 4; 5; 6; 7; 8; 9] [1; 1] [3; 3] true = Some ([1; 1; 1; 1], [(1, 1)]).
 Proof. vm_compute. repeat split; reflexivity. Qed.
+
+(* ---- 6. softmax / softmin: the view composition of softmax.hpp (reduce_maximum with keepdims along the axis, subtract,
+   exp, reduce_add with keepdims along the axis, divide) is, element by element and in ANY scalar structure (so also in
+   IEEE float / double, whatever exp / max / + / / do there), the same expression as the definition
+     exp(x_i - m) / sum_k exp(x_{i[ax:=k]} - m)   with  m = the maximum of THE SLICE through i along the axis.
+   The stabilising maximum is per slice; a slice far below the rest of the array is shifted by its own maximum. *)
+Theorem C17_softmax_structure : forall (A : Type) (sub div add mx : A -> A -> A) (ex neg : A -> A) (dflt : A) x shape ax i,
+  softmax_model A sub div add mx ex dflt x shape ax i = softmax_spec A sub div add mx ex dflt x shape ax i
+  /\ softmin_model A sub div add mx ex neg dflt x shape ax i
+     = softmax_spec A sub div add mx ex dflt (fun j => neg (x j)) shape ax i.
+Proof.
+  intros. split; [apply softmax_structure|]. unfold softmin_model. apply softmax_structure.
+Qed.
+Print Assumptions C17_softmax_structure.
+
+(* non-vacuity, in a toy structure over Z whose "exp" underflows to 0 below -100 (ex t = max 0 (t + 101)) and with
+   quotients scaled by 1000: rows (0,1,2) and (200,201,202), softmax along the last axis.  Both rows give the same
+   values because each is shifted by its own maximum; shifting by one global maximum (202) would make row 0 0/0 *)
+Example C17_nonvacuous_softmax :
+  let x := fun i : list Z => nth (Z.to_nat (horner 0 i [2; 3])) [0; 1; 2; 200; 201; 202] 0 in
+  let ex := fun t => Z.max 0 (t + 101) in
+  let sm := softmax_model Z Z.sub (fun a b => 1000 * a / b) Z.add Z.max ex 0 x [2; 3] 1%nat in
+  map sm [[0; 0]; [0; 1]; [0; 2]; [1; 0]; [1; 1]; [1; 2]] = [330; 333; 336; 330; 333; 336]
+  /\ (let gmax := 202 in 1000 * ex (x [0; 1] - gmax) / (ex (x [0; 0] - gmax) + ex (x [0; 1] - gmax) + ex (x [0; 2] - gmax))) = 0.
+Proof. split; reflexivity. Qed.
